@@ -7,13 +7,13 @@ namespace Quic.Sync.Spsc
 open Quic.Sync.Ra
 
 theorem inv_pLoadOpen {s s' : Sys} {ts : Nat} (inv : Inv s) (h : step pinned s (.pLoadOpen ts) = some s') :
-    s'.fail = some .useAfterFree ∨ Inv s' := by
+    s' = { s with fail := some .useAfterFree } ∨ Inv s' := by
   have nf := inv.nofail
   simp only [step, nf, Option.isSome_none, Bool.false_eq_true, if_false, pinned] at h
   split at h
   · rename_i hpc
     split at h
-    · left; simp [failWith] at h; rw [← h]
+    · left; simp only [failWith, Option.some.injEq] at h; exact h.symm
     split at h
     · simp at h
     rename_i m hr
@@ -29,7 +29,7 @@ theorem inv_pLoadOpen {s s' : Sys} {ts : Nat} (inv : Inv s) (h : step pinned s (
       inv_pc i1
   · rename_i hpc
     split at h
-    · left; simp [failWith] at h; rw [← h]
+    · left; simp only [failWith, Option.some.injEq] at h; exact h.symm
     split at h
     · simp at h
     rename_i m hr
@@ -78,14 +78,14 @@ macro "pLoadHead_block" : tactic => `(tactic| (
   inv_pc i1))
 
 theorem inv_pLoadHead {s s' : Sys} {ts : Nat} (inv : Inv s) (h : step pinned s (.pLoadHead ts) = some s') :
-    s'.fail = some .useAfterFree ∨ Inv s' := by
+    s' = { s with fail := some .useAfterFree } ∨ Inv s' := by
   have nf := inv.nofail
   simp only [step, nf, Option.isSome_none, Bool.false_eq_true, if_false, pinned] at h
   split at h
   case h_2 => simp at h
   rename_i b hpc
   split at h
-  · left; simp [failWith] at h; rw [← h]
+  · left; simp only [failWith, Option.some.injEq] at h; exact h.symm
   split at h
   · simp at h
   rename_i m hr
@@ -107,7 +107,7 @@ theorem inv_pLoadHead {s s' : Sys} {ts : Nat} (inv : Inv s) (h : step pinned s (
     pLoadHead_block
 
 theorem inv_pPush {s s' : Sys} {v : Nat} (inv : Inv s) (h : step pinned s (.pPush v) = some s') :
-    s'.fail = some .useAfterFree ∨ Inv s' := by
+    s' = { s with fail := some .useAfterFree } ∨ Inv s' := by
   have nf := inv.nofail
   simp only [step, nf, Option.isSome_none, Bool.false_eq_true, if_false] at h
   split at h
@@ -117,7 +117,7 @@ theorem inv_pPush {s s' : Sys} {v : Nat} (inv : Inv s) (h : step pinned s (.pPus
   · simp at h
   rename_i hfull
   split at h
-  · left; simp [failWith] at h; rw [← h]
+  · left; simp only [failWith, Option.some.injEq] at h; exact h.symm
   right
   have hrun : s.p.pc.running = true := by rw [hpc]; rfl
   obtain ⟨htail, hhead⟩ := inv.pA1 hrun
@@ -218,7 +218,7 @@ theorem inv_pPush {s s' : Sys} {v : Nat} (inv : Inv s) (h : step pinned s (.pPus
         simp [htail, *]
 
 theorem inv_pRelease {s s' : Sys} (inv : Inv s) (h : step pinned s .pRelease = some s') :
-    s'.fail = some .useAfterFree ∨ Inv s' := by
+    s' = { s with fail := some .useAfterFree } ∨ Inv s' := by
   have nf := inv.nofail
   simp only [step, nf, Option.isSome_none, Bool.false_eq_true, if_false, pinned] at h
   split at h
@@ -243,7 +243,7 @@ theorem inv_pRelease {s s' : Sys} (inv : Inv s) (h : step pinned s .pRelease = s
     case pS1 => intro _; exact hg
     inv_pc inv
   split at h
-  · left; simp [failWith] at h; rw [← h]
+  · left; simp only [failWith, Option.some.injEq] at h; exact h.symm
   right
   simp only [store, Option.some.injEq, Ord.isRel, if_true] at h
   subst h
